@@ -133,7 +133,7 @@ func TestC28(t *testing.T) {
 		"Oracle: reference enumeration of segment combinations with independently computed interface list, expiry and MTU. Non-trivial: >= 2 returned paths or a peering/shortcut path.")
 	defer rec.Flush(t)
 	rec.Assume("MACs are random (the combinator does not verify them)", "'passes no AS more than twice' is read as: no AS has more than two of its interfaces crossed")
-	rec.Require("kind_up_down", "kind_shortcut", "kind_peering", "kind_up_core_down", "kind_core", "kind_core_down", "kind_up_core", "kind_up_onpath", "kind_down_onpath", "duplicates_collapsed", "long_path_filtered", "no_path")
+	rec.Require("kind_up_down", "kind_shortcut", "kind_peering", "kind_up_core_down", "kind_core", "kind_core_down", "kind_up_core", "kind_up_onpath", "kind_down_onpath", "duplicates_collapsed", "long_path_filtered", "no_path", "as_number_shared_across_isds")
 	rapid.Check(t, func(rt *rapid.T) {
 		c := genCase(rt)
 		labels := map[string]bool{}
@@ -217,6 +217,9 @@ func TestC28(t *testing.T) {
 		}
 		if len(c.cands) > 0 && len(c.out) > 0 {
 			// perturbed flag for the distribution
+		}
+		if c.w.sharedASNumber && len(c.out) > 0 {
+			labels["as_number_shared_across_isds"] = true
 		}
 		nt := len(c.out) >= 2 || labels["kind_peering"] || labels["kind_shortcut"]
 		rec.Case(nt, desc+fmt.Sprint(len(c.outAll)), keysOf(labels)...)
